@@ -318,15 +318,19 @@ def binop(it, op, a, b):
                     return mk_int(x / y if opt is ast.FloorDiv else x % y)
                 q = (-x) / z3.IntVal(-b)
                 return mk_int(q if opt is ast.FloorDiv else x - y * q)
-            if it.ctx.branch(y == 0):
-                it.raise_native(ZeroDivisionError("integer division or modulo by zero"))
+            it.require_native(y != 0, lambda: ZeroDivisionError("integer division or modulo by zero"))
+            if it.ctx.pure:
+                q = z3.If(y > 0, x / y, (-x) / (-y))
+                return mk_int(q if opt is ast.FloorDiv else x - y * q)
             if it.ctx.branch(y > 0):
                 return mk_int(x / y if opt is ast.FloorDiv else x % y)
             q = (-x) / (-y)
             return mk_int(q if opt is ast.FloorDiv else x - y * q)
         if opt is ast.Div:
-            if isinstance(b, int) and b == 0 or (not isinstance(b, int) and it.ctx.branch(y == 0)):
+            if isinstance(b, int) and b == 0:
                 it.raise_native(ZeroDivisionError("division by zero"))
+            if not isinstance(b, int):
+                it.require_native(y != 0, lambda: ZeroDivisionError("division by zero"))
             return mk_real(z3.ToReal(x) / z3.ToReal(y))
         if opt is ast.Pow and isinstance(b, int) and 0 <= b <= 64:
             r = z3.IntVal(1)
@@ -365,8 +369,7 @@ def binop(it, op, a, b):
         if opt is ast.Mult:
             return mk_real(x * y)
         if opt is ast.Div:
-            if it.ctx.branch(y == 0):
-                it.raise_native(ZeroDivisionError("float division by zero"))
+            it.require_native(y != 0, lambda: ZeroDivisionError("float division by zero"))
             return mk_real(x / y)
         raise Unsupported(f"real op {opt.__name__}")
     # sequences
@@ -551,8 +554,7 @@ def index(it, s, idx):
     n = z3.Length(t)
     i, ok = _norm_index(it, idx, n)
     if not it.ctx.pure:
-        if not it.ctx.branch(ok):
-            it.raise_native(IndexError("index out of range"))
+        it.require_native(ok, lambda: IndexError("index out of range"))
     if isinstance(s, (SBytes, bytes, bytearray)):
         e = z3.simplify(t[i])
         if not z3.is_int_value(e):
